@@ -574,7 +574,8 @@ def _temps(emit, det, c, r, diss, ta, any_col, dead=False):
              lambda: det(expected_peak=ta + exp_tr, ta=ta, dead=dead))
     elif not any_col:
         # columns are hidden only when no component has a positive rise in this phase
-        emit("temp.hidden", exp_tr == 0.0 or abs(exp_tr) < 1e-300, lambda: det(expected_rise=exp_tr))
+        # (a loss-less element may report a loss of -1e-7 W, solver noise: a non-positive rise never shows the columns)
+        emit("temp.hidden", exp_tr <= 0.0 or abs(exp_tr) < 1e-300, lambda: det(expected_rise=exp_tr))
 
 
 def _rel(a, b, rel=SLACK * 10, abs_=0.0):
